@@ -1,20 +1,21 @@
 (* C08 - Auto-profiling rewrites only add hooks; the program behaves the same.
-   Nothing but the statements; proofs live in Ast/{TransformFacts,Behaviour,PropFacts}.v.
+   Nothing but the statements; proofs live in Ast/{TransformFacts,Placement,Behaviour,PropFacts}.v.
 
    [transform c body] is AstTree(Module)Profiler.profile() on the parsed file [body];
    [pre c body] is the reference program t': [body] itself in script mode, [body] with the
    relative imports made absolute (by the translated get_module_from_importfrom, which
-   C17 proves equal to importlib's resolution) in -m mode. *)
+   C17 proves equal to importlib's resolution) in -m mode.  The rewrite is total. *)
 From LP Require Import Prelude.Py Gen.RelImport
-     Ast.AstLite Ast.AuxStr Ast.Select Ast.Transform Ast.TransformFacts Ast.Behaviour Ast.PropFacts.
+     Ast.AstLite Ast.AuxStr Ast.Select Ast.Transform Ast.TransformFacts Ast.Placement
+     Ast.Behaviour Ast.PropFacts.
 
 (* Erasing what auto-profiling can add (`profile` decorators, registration statements) from
    the rewritten tree gives the erased reference program - for ALL trees and configurations;
    on a program that does not itself use `profile` it gives back the program itself. *)
 Theorem C08_erasure :
-  forall c body t',
-    transform c body = Ok t' ->
-    erase t' = erase (pre c body) /\ (clean (pre c body) = true -> erase t' = pre c body).
+  forall c body,
+    erase (transform c body) = erase (pre c body)
+    /\ (clean (pre c body) = true -> erase (transform c body) = pre c body).
 Proof. exact erasure. Qed.
 
 Theorem C08_reference_program :
@@ -25,61 +26,70 @@ Proof. split; [exact pre_script|exact pre_module]. Qed.
 (* every original statement keeps its line number (line numbers of all statements other than
    registration calls, at any depth, in source order) *)
 Theorem C08_lines_preserved :
-  forall c body t', transform c body = Ok t' -> lines t' = lines body.
+  forall c body, lines (transform c body) = lines body.
 Proof. exact lines_transform. Qed.
 
 (* function headers, at any depth and in order: untouched unless the script is selected, in
    which case `profile` is appended last iff it is not already there; on a clean program that
    is exactly one `profile`, innermost *)
 Theorem C08_decorator_innermost_once :
-  forall c body t',
-    transform c body = Ok t' ->
-    funcs t' = (if c_full c then map deco_once (funcs (pre c body)) else funcs (pre c body))
+  forall c body,
+    funcs (transform c body) = (if c_full c then map deco_once (funcs (pre c body)) else funcs (pre c body))
     /\ (forall f, fh_decos (deco_once f)
                   = if has_profile (fh_decos f) then fh_decos f else fh_decos f ++ [DName profile_name])
     /\ (c_full c = true -> clean (pre c body) = true ->
-        forall f, In f (funcs t') -> once_innermost f = true).
+        forall f, In f (funcs (transform c body)) -> once_innermost f = true).
 Proof. exact decorator_innermost_once. Qed.
 
-(* the rewrite is defined for every program except one with a top-level `from . import x`
-   seen by the extractor, where it raises TypeError before anything runs *)
-Theorem C08_rewrite_defined :
+(* C08_inserted_nodes_located, the full statement (true since the repair): every registration
+   statement that follows an import - directly or behind other registrations, at any depth -
+   carries the line number of that import.  [located] descends into every nested body. *)
+Theorem C08_inserted_nodes_located :
   forall c body,
-    (no_bare_relative (pre c body) = true -> exists t', transform c body = Ok t')
-    /\ (no_bare_relative (pre c body) = false -> transform c body = Err TypeError).
-Proof. exact rewrite_defined. Qed.
+    (located (pre c body) = true -> located (transform c body) = true)
+    /\ (located body = true -> located (pre c body) = true).
+Proof. exact located_full. Qed.
 
-(* C08_inserted_nodes_located: "each inserted statement carries the line number of the import
-   it follows" is FALSE of the faithful model: inserted nodes have no location and
-   fix_missing_locations gives them the line of the enclosing parent - the `def` line for an
-   import inside a function, line 1 at module level.  (Replayed on the implementation:
-   findings/C08-inserted-nodes-wrong-line.json.) *)
-Theorem C08_inserted_nodes_located_refuted : ~ located_statement.
-Proof. exact located_refuted. Qed.
+(* syntactic validity is preserved: no statement is inserted before a `from __future__ import`
+   (neither by --prof-imports nor by a selection that matches __future__) ... *)
+Theorem C08_future_placement :
+  forall c body, future_ok (pre c body) = true -> future_ok (transform c body) = true.
+Proof. exact future_transform. Qed.
 
-Theorem C08_inserted_located_witnesses :
-  transform loc_cfg loc_body_fn
-  = Ok [FuncDef false "f" [DName "profile"] [Import [("os", None)] 2; ProfCall "os" (Some 1)] 1]
-  /\ transform (Build_cfg false false None ["pkg"]) loc_body_mod
-     = Ok [Other 0 1; Import [("pkg", None)] 2; ProfCall "pkg" (Some 1)]
-  /\ located loc_body_fn = true /\ located loc_body_mod = true.
-Proof. exact located_witnesses. Qed.
+(* ... and no registration call is made for `*`: under the grammar of import statements
+   (`*` only as the bare name of a from-import alias, [star_grammar]) a star-free program
+   stays star-free, with --prof-imports and with the star-imported module selected.
+   More precisely every name handed to a registration call is one the program already
+   registers, the alias of a selected binding, or the name bound by a non-star alias of a
+   visited import. *)
+Theorem C08_star_registration :
+  (forall c body, star_grammar (pre c body) = true -> star_free (pre c body) = true ->
+                  star_free (transform c body) = true)
+  /\ (forall c body y,
+         In y (regs (transform c body)) ->
+         In y (regs (pre c body)) \/ In y (map snd (wanted (c_sel c) (pre c body)))
+         \/ In y (import_names (pre c body))).
+Proof. split; [exact star_transform|exact regs_transform_incl]. Qed.
 
-(* syntactic validity is not preserved: a registration statement lands between two
-   `from __future__ import` statements (--prof-imports) ... *)
-Theorem C08_future_placement_refuted : ~ future_statement.
-Proof. exact future_refuted. Qed.
-
-(* ... and a star import (from x import STAR) gets a registration call whose argument is the
-   name STAR = "*", which is not an expression (NameError at run time),
-   with --prof-imports and also when x is selected with plain -p *)
-Theorem C08_star_registration_refuted :
-  ~ star_statement
-  /\ transform loc_cfg [ImportFrom (Some "os") [("*", None)] 0 1]
-     = Ok [ImportFrom (Some "os") [("*", None)] 0 1; ProfCall "*" (Some 1)]
-  /\ transform (Build_cfg false false None ["pkg"]) [ImportFrom (Some "pkg") [("*", None)] 0 1]
-     = Ok [ImportFrom (Some "pkg") [("*", None)] 0 1; ProfCall "*" (Some 1)].
-Proof. exact star_refuted. Qed.
+(* the rewrite no longer fails on a top-level bare relative import (it is no candidate), and
+   the three repaired situations on concrete trees *)
+Theorem C08_repaired_examples :
+  (transform (Build_cfg true true None ["sibling_mod"])
+             [Other 0 1; ImportFrom None [("sibling_mod", None)] 1 2; Other 1 3]
+   = [Other 0 1; ImportFrom None [("sibling_mod", None)] 1 2; ProfCall "sibling_mod" (Some 2); Other 1 3]
+   /\ select ["sibling_mod"; "."] [ImportFrom None [("sibling_mod", None)] 1 2] = [])
+  /\ (transform (Build_cfg true true None ["json"])
+                [Import [("json", None)] 1; FuncDef false "f" [] [Import [("os", None)] 3] 2]
+      = [Import [("json", None)] 1; ProfCall "json" (Some 1);
+         FuncDef false "f" [DName "profile"] [Import [("os", None)] 3; ProfCall "os" (Some 3)] 2]
+      /\ transform (Build_cfg true true None ["__future__"])
+                   [ImportFrom (Some "__future__") [("annotations", None)] 0 1;
+                    ImportFrom (Some "__future__") [("division", None)] 0 2]
+         = [ImportFrom (Some "__future__") [("annotations", None)] 0 1;
+            ImportFrom (Some "__future__") [("division", None)] 0 2]
+      /\ transform (Build_cfg true true None ["pkg"]) [ImportFrom (Some "pkg") [("*", None)] 0 1]
+         = [ImportFrom (Some "pkg") [("*", None)] 0 1]).
+Proof. split; [exact bare_relative_ignored|exact c08_examples]. Qed.
 
 (* Behaviour.  For an ARBITRARY big-step semantics exec : list stmt -> env -> outcome * env with
    eqv = equality of the program-visible part of env, if
@@ -91,9 +101,9 @@ Proof. exact star_refuted. Qed.
            (C03_registration_inert),
    then executing the rewritten tree gives the same outcome and an eqv-equal state as
    executing the reference program - provided every name handed to a registration call is
-   good (which `*` is not).  Induction over the tree, every nested body included.
-   The theorem inherits C03's status: (i) is false for generator functions while the wrapped
-   generator drops the return value. *)
+   good.  Induction over the tree, every nested body included.
+   The theorem inherits C03's status: (i) is exactly what C03 establishes for the wrappers
+   (generator return values and throw()/close() forwarding included). *)
 Theorem C08_behaviour :
   forall (env outcome : Type) (exec : list stmt -> env -> outcome * env)
          (is_normal : outcome -> bool) (normal : outcome) (eqv : env -> env -> Prop),
@@ -118,21 +128,21 @@ Theorem C08_behaviour :
         beq env outcome exec eqv [FuncDef a n (ds ++ [DName profile_name]) b l] [FuncDef a n ds b l]) ->
     forall good_name : string -> bool,
       (forall n loc, good_name n = true -> beq env outcome exec eqv [ProfCall n loc] []) ->
-      forall c body t',
-        transform c body = Ok t' ->
-        (forall y, In y (regs t') -> good_name y = true) ->
+      forall c body,
+        (forall y, In y (regs (transform c body)) -> good_name y = true) ->
         forall e,
-          fst (exec t' e) = fst (exec (pre c body) e)
-          /\ eqv (snd (exec t' e)) (snd (exec (pre c body) e)).
+          fst (exec (transform c body) e) = fst (exec (pre c body) e)
+          /\ eqv (snd (exec (transform c body) e)) (snd (exec (pre c body) e)).
 Proof. exact behaviour. Qed.
 
 (* Non-vacuity: the hypotheses of C08_behaviour are jointly satisfiable - the trace semantics
    [toy_exec] (append the line of every original statement) meets all of them and the theorem,
    applied to it, says the rewritten program visits the same lines; and a concrete clean
-   three-level program with its rewrite, erasure and lines. *)
+   three-level program satisfying the hypotheses of every theorem above. *)
 Theorem C08_nonvacuous :
-  (forall c body t', transform c body = Ok t' -> snd (toy_exec t' []) = snd (toy_exec (pre c body) []))
-  /\ clean nv_body = true
-  /\ (exists t', transform nv_cfg nv_body = Ok t' /\ erase t' = nv_body
-                 /\ lines t' = [1; 2; 3; 4; 4; 5; 6; 7; 8; 9]).
+  (forall c body, snd (toy_exec (transform c body) []) = snd (toy_exec (pre c body) []))
+  /\ clean nv_body = true /\ located nv_body = true /\ future_ok nv_body = true
+  /\ star_grammar nv_body = true /\ star_free nv_body = true
+  /\ erase (transform nv_cfg nv_body) = nv_body
+  /\ lines (transform nv_cfg nv_body) = [1; 2; 3; 4; 4; 5; 6; 7; 8; 9].
 Proof. exact c08_nonvacuous. Qed.
